@@ -107,7 +107,29 @@ def run(prog, job: dict) -> dict:
             if isinstance(fr, Msg):
                 frames.append(fr)
 
-        for expect, st in case["seq"]:
+        precreated: list = []
+        if physical == 3 and job.get("precreate"):
+            # the per-graph generators are all obtained BEFORE any of them is consumed (a caller that prepares its work
+            # list first): whatever graph() checks when it is called was checked before the failure happened
+            for expect, st in case["seq"]:
+                terms = [_build(k, integ, t) for t in st]
+                gid = terms[3] if len(terms) > 3 else None
+                try:
+                    precreated.append((expect, st, k.method(stream, "graph", gid, k.generator([tuple(terms[:3])])), None))
+                except PyRaise as pr:
+                    precreated.append((expect, st, None, pr))
+            for expect, st, gen, err in precreated:
+                try:
+                    if err is not None:
+                        raise err
+                    for fr in it.drain(gen):
+                        push(fr)
+                    log.append(("returned", expect))
+                    if len(st) >= 4 and BAD not in st:
+                        accepted.append(st)
+                except PyRaise as pr:
+                    log.append(("raised", expect, it.exc_class_name(pr.exc)))
+        for expect, st in case["seq"] if not precreated else ():
             terms = [_build(k, integ, t) for t in st]
             payload: Any = tuple(terms)
             if expect == "bad" and case["cause"] == "interrupt-while-iterating-terms":
@@ -150,7 +172,7 @@ def run(prog, job: dict) -> dict:
             paths.append({"error": it.exc_class_name(out[1].exc), "site": str(out[1].site)})
         else:
             paths.append(out[1])
-    return {"job": {"integ": integ, "physical": physical, "cause": case["cause"], "slot": case["slot"], "frame_size": job["frame_size"]}, "paths": paths, "funcs": sorted(funcs)}
+    return {"job": {"integ": integ, "physical": physical, "cause": case["cause"], "slot": case["slot"], "frame_size": job["frame_size"], "precreate": bool(job.get("precreate"))}, "paths": paths, "funcs": sorted(funcs)}
 
 
 def run_driver(prog, job: dict) -> dict:
@@ -378,12 +400,14 @@ def check(chk: Check) -> None:
             for case in cases(arity, integ):
                 for fs in ((1, 2, 3, 5, 250) if chk.tier == "thorough" else (1, 250)):
                     jobs.append(dict(integ=integ, physical=physical, case=case, frame_size=fs))
+                if physical == 3 and case["cause"] != "interrupt-while-iterating-terms":
+                    jobs.append(dict(integ=integ, physical=physical, case=case, frame_size=250, precreate=True))
     for res in pmap(run, jobs):
         if res is None:
             continue
         chk.functions.update(res["funcs"])
         jb = res["job"]
-        inst = f"{jb['integ']} physical={jb['physical']} cause={jb['cause']} slot={jb['slot']} frame_size={jb['frame_size']}"
+        inst = f"{jb['integ']} physical={jb['physical']} cause={jb['cause']} slot={jb['slot']} frame_size={jb['frame_size']}" + (" graph generators created up front" if jb.get("precreate") else "")
         method = {1: "TripleStream.triple", 2: "QuadStream.quad", 3: "GraphStream.graph"}[jb["physical"]]
         for p in res["paths"]:
             chk.paths += 1
